@@ -153,6 +153,18 @@ func (env *SpecEnv) containerSpec(name string, n *ast.CallExpr) (SV, bool) {
 		return intSV(e.frontier(st)), true
 	case "addr":
 		return intSV(env.eval(n.Args[0]).(*PtrV).Addr), true
+	case "owner", "interior":
+		// owner(p) / interior(p): the object a pointer into the interior of a heap object points into, and whether
+		// p is such a pointer (read-through model of interiorOrigins)
+		p := env.eval(n.Args[0]).(*PtrV)
+		if p.Addr == nil {
+			panic(name + "() of a static pointer")
+		}
+		pt := sanitize(typeKey(p.Ty.Underlying().(*types.Pointer).Elem()))
+		if name == "owner" {
+			return intSV(ufun("ptr.owner."+pt, []string{SInt}, SInt, p.Addr)), true
+		}
+		return boolSV(ufun("ptr.isint."+pt, []string{SInt}, SBool, p.Addr)), true
 	case "cls":
 		return intSV(mapKeyClass(env.eval(n.Args[0]))), true
 	case "visited":
